@@ -30,6 +30,15 @@ from allmydata.util import fileutil, idlib, hashutil, base32
 from allmydata.util.hashutil import permute_server_hash
 
 
+# The two crawlers of every StorageServer compute the 1024 two-letter prefixes with
+# si_b2a() at construction (8 ms per server).  si_b2a is a pure function: memoise the
+# name the crawler module uses (values are still computed by the code under test).
+import functools as _functools
+import allmydata.storage.crawler as _crawler
+if not hasattr(_crawler.si_b2a, "cache_info"):
+    _crawler.si_b2a = _functools.lru_cache(maxsize=8192)(_crawler.si_b2a)
+
+
 class InjectedError(Exception):
     pass
 
@@ -288,11 +297,13 @@ class VIServer(object):
     def get_permutation_seed(self):
         return self.serverid
 
+    # three different values, as on a real grid (tubid vs. pubkey-derived ids), so that code
+    # which confuses the seeds becomes observable
     def get_lease_seed(self):
-        return self.serverid
+        return hashutil.tagged_hash(b"vf-lease-seed", self.serverid)[:20]
 
     def get_foolscap_write_enabler_seed(self):
-        return self.serverid
+        return hashutil.tagged_hash(b"vf-we-seed", self.serverid)[:20]
 
     def get_name(self):
         return idlib.shortnodeid_b2a(self.serverid).encode("utf-8")
